@@ -435,6 +435,32 @@ static void run_C10(const Args &a, long cs) {
 	if (cs % 20 == 0) sample(prob_brief(p));
 }
 
+// ================================================================ C10big: monotonic fits of tables with thousands of coefficients
+// Tolerances inside the solver that grow with the size of the system are invisible on tables of a few hundred coefficients. 2-d fits of 1300-4500 coefficients on
+// data that rises along the monotonic dimension with shallow dips (1e-6 ... 1e-3 of the data scale) and a fine ripple; the returned coefficients must be non-decreasing
+// along the monotonic dimension exactly, as floats.
+static void run_C10big(const Args &a, long cs) {
+	Rng r(a.seed, "C10big", cs);
+	Problem p; p.nd = 2; p.ntot = 1; p.kind = "large-monotonic"; uint32_t monodim = (uint32_t)r.below(2);
+	for (int d = 0; d < 2; d++) { uint32_t o = (uint32_t)r.range(1, 2); int n = 36 + (int)r.below(32); int nk = n + o + 1; std::vector<double> k(nk); double x = -1.0 + r.U(); for (int i = 0; i < nk; i++) { k[i] = x; x += 0.8 + 0.4 * r.U(); }
+		p.ord.push_back(o); p.kn.push_back(k); p.n.push_back(n); p.ntot *= (size_t)n; p.por.push_back((uint32_t)r.range(1, (int)o)); p.lam.push_back(r.coin(0.5) ? 0.0 : 1e-8);
+		int np = n + 2 + (int)r.below(4); std::vector<double> c(np); for (int i = 0; i < np; i++) c[i] = k[0] + (k[nk - 1] - k[0]) * (0.002 + 0.996 * (i + 0.5) / np); p.co.push_back(c); }
+	double span = p.kn[monodim].back() - p.kn[monodim][0], lo = p.kn[monodim][0]; int ndips = r.range(2, 6); std::vector<double> dc, dw, da; for (int i = 0; i < ndips; i++) { dc.push_back(lo + span * r.U()); dw.push_back(span * (0.01 + 0.04 * r.U())); da.push_back(std::pow(10.0, -(double)r.range(3, 6))); }
+	double scale = std::pow(10.0, (double)r.range(-3, 3));
+	std::vector<unsigned> I(2); for (unsigned i = 0; i < p.co[0].size(); i++) for (unsigned j = 0; j < p.co[1].size(); j++) { I[0] = i; I[1] = j; double t = (p.co[monodim][I[monodim]] - lo) / span, u = p.co[1 - monodim][I[1 - monodim]];
+		double v = 1 + t + 0.2 * std::sin(0.3 * u); for (int q = 0; q < ndips; q++) { double z = (p.co[monodim][I[monodim]] - dc[q]) / dw[q]; v -= da[q] * std::exp(-z * z) * (1 + 0.5 * std::sin(u + q)); } v += 1e-6 * std::sin(40 * t * span);
+		p.idx.push_back(I); p.y.push_back(v * scale); p.w.push_back(1.0); }
+	std::string pj = prob_brief(p); context(pj); count("large-monotonic-problems"); count("large-monotonic:coefficients", (long)p.ntot); count("monodim:" + std::to_string(monodim));
+	photospline::ndsparse *data = make_data(p); Table T; phase_log("fit(monodim) (large table)");
+	try { T.fit(*data, p.w, p.co, p.ord, p.kn, p.lam, p.por, monodim, false); } catch (std::exception &e) { viol("C10:fit(monodim,large-table):threw", "{\"what\":" + jstr(e.what()) + ",\"problem\":" + pj + "}"); delete data; return; }
+	delete data; const float *c = T.get_coefficients(); size_t inner = monodim == 0 ? (size_t)p.n[1] : 1; int nm = p.n[monodim]; long dec = 0; double worst = 0; size_t wi = 0; bool fin = true;
+	for (size_t i = 0; i < p.ntot; i++) { if (!std::isfinite(c[i])) fin = false; int j = (int)((i / inner) % nm); if (j + 1 < nm && c[i + inner] < c[i]) { dec++; double dlt = (double)c[i] - (double)c[i + inner]; if (dlt > worst) { worst = dlt; wi = i; } } }
+	count("large-monotonic-fits"); count("large-monotonic:coefficient-steps-checked", (long)(p.ntot - p.ntot / nm)); uint64_t h = hash_mix(1010, p.ntot); for (size_t i = 0; i < p.y.size(); i += 97) h = hash_d(h, p.y[i]); distinct(h);
+	if (!fin) { viol("C10:fit(monodim,large-table):non-finite-coefficients", pj); return; }
+	if (dec) viol("C10:fit(monodim,large-table):coefficients-decrease-along-monodim", "{\"decreasing_steps\":" + std::to_string(dec) + ",\"worst_step\":" + jnum(-worst) + ",\"at\":" + std::to_string(wi) + ",\"data_scale\":" + jnum(scale) + ",\"monodim\":" + std::to_string(monodim) + ",\"problem\":" + pj + "}");
+	sample("{\"coefficients\":" + std::to_string(p.ntot) + ",\"monodim\":" + std::to_string(monodim) + ",\"decreasing_steps\":" + std::to_string(dec) + "}");
+}
+
 // ================================================================ C13
 template <class T> struct Exact { T *p; size_t n; Exact(const std::vector<T> &v) : n(v.size()) { p = (T *)malloc(n * sizeof(T) + (n == 0)); std::copy(v.begin(), v.end(), p); } ~Exact() { free(p); } array_view<T> view() const { return array_view<T>(p, n); } };
 struct TableSnap { unsigned nd; std::vector<unsigned> ord; std::vector<uint64_t> nk, nax; std::vector<float> c; std::vector<double> k0; };
@@ -469,6 +495,14 @@ static void run_C13(const Args &a, long cs) {
 		for (size_t i = 0; i < npts; i++) { idx.push_back({(unsigned)r.below(3), (unsigned)r.below(4), (unsigned)r.below(2)}); w.push_back(r.coin(0.2) ? 0.0 : (r.coin(0.5) ? 2.5 : 1.0)); p.y.push_back((r.U() - 0.5) * 4); }
 		monodim = 0; p.ord = ord; p.por = por; p.kn = kn; p.co = co; p.lam = lam; p.n = {8, 2, 6}; p.ntot = 96; p.kind = "ill-posed-template"; p.idx = idx; p.w = w;
 		applied.push_back("ill-posed:template(3-d,few-points,monotonic-cubic,vanishing-penalty)");
+	}
+	if (cs % 25 == 11) { // a consistent request with a high spline order and a penalty order of 9..12: nothing but the spline order limits the penalty order, so the
+		// fitter's penalty and basis code must cope (it completes or refuses; the sanitizer watches its work arrays)
+		ncorr = 0; p.nd = 1; uint32_t o = (uint32_t)r.range(9, 12); ord = {o}; por = {(uint32_t)r.range(9, (int)o)}; lam = {std::pow(10.0, (double)r.range(-3, 0))}; int nk = 2 * (int)o + 2 + (int)r.below(3);
+		kn = {gen_knots(r, o, nk, 1, 1.0, r.U(), true)}; int np = nk - (int)o - 1 + 4; co = {{}}; for (int i = 0; i < np; i++) co[0].push_back(kn[0][0] + (kn[0].back() - kn[0][0]) * (0.01 + 0.98 * (i + 0.5) / np));
+		ranges = {(unsigned)np}; idx.clear(); w.clear(); p.y.clear(); for (int i = 0; i < np; i++) { idx.push_back({(unsigned)i}); w.push_back(1.0); p.y.push_back(1.5 + std::sin(0.9 * co[0][i])); }
+		monodim = r.coin(0.25) ? 0 : Table::no_monodim; p.ord = ord; p.por = por; p.kn = kn; p.co = co; p.lam = lam; p.n = {nk - (int)o - 1}; p.ntot = (size_t)(nk - (int)o - 1); p.kind = "high-order"; p.idx = idx; p.w = w;
+		applied.push_back("valid:spline-order-9..12-with-penalty-order-9-or-more"); count("high-order-consistent-requests");
 	}
 	for (int q = 0; q < ncorr; q++) {
 		int d = (int)r.below(p.nd);
@@ -598,6 +632,7 @@ int main(int argc, char **argv) {
 		if (a.prop == "C09") run_C09(a, cs);
 		else if (a.prop == "C09big") run_C09big(a, cs);
 		else if (a.prop == "C10") run_C10(a, cs);
+		else if (a.prop == "C10big") { prop_id() = "C10"; run_C10big(a, cs); }
 		else if (a.prop == "C13") run_C13(a, cs);
 		else { fprintf(stderr, "unknown mode %s\n", a.prop.c_str()); return 2; }
 	}
